@@ -46,7 +46,13 @@ def resStr : SRT.Res Subs → Option String
 def srtRep (s : Subs) : Bool :=
   s.items.all fun it =>
     decide (0 ≤ it.startAt) && decide (it.endAt < 360000000000000) && decide (0 ≤ it.endAt) && decide (it.startAt < 360000000000000) &&
-    !it.lines.isEmpty && it.lines.all fun l => !l.items.isEmpty && l.items.all fun li =>
+    !it.lines.isEmpty && it.lines.all fun l => !l.items.isEmpty &&
+      -- the reader trims every line: outer white space of an unstyled first / last run is not carried
+      -- (with `Props/C01doc.lean`'s `Rep`, under which the round trip is proved)
+      (match l.items.head?, l.items.getLast? with
+       | some a, some b => (a.text.head?.map Go.isSpace) != some true && (b.text.getLast?.map Go.isSpace) != some true
+       | _, _ => true) &&
+      l.items.all fun li =>
       trimSpace li.text ≠ [] && !(li.text.any fun c => c = '\n' || c = '\r') && !contains "-->".toList li.text &&
       (SRT.kvGet li.attrs "SRTPosition").isNone &&
       (match SRT.kvGet li.attrs "SRTColor" with | some c => c ≠ [] && !(c.any fun ch => ch = '"' || ch = '&' || ch = '>') | none => true)
